@@ -128,7 +128,10 @@ package packetio
 
 //@ func (b *Buffer) SetReadDeadline(t time.Time) (err error)
 //@   requires b.readDeadline != nil
-//@   modifies lastUntil
+//@   modifies lastUntil, dlSetN, dlSetObj, dlSetTo
+//@   ensures [forward] (exists k mathint :: old(dlSetN) <= k && k < dlSetN && dlSetObj[k] == ref(b.readDeadline) && dlSetTo[k] == t) &&
+//@            (forall k mathint :: {dlSetTo[k]} old(dlSetN) <= k && k < dlSetN ==> dlSetTo[k] == t)
+//@   ensures [keep] dlSetN > old(dlSetN) && (forall k mathint :: {dlSetTo[k]} k < old(dlSetN) ==> dlSetTo[k] == old(dlSetTo[k]) && dlSetObj[k] == old(dlSetObj[k]))
 //@   ensures [nil] err == nil
 
 //@ func (b *Buffer) Close() (err error)
